@@ -188,26 +188,29 @@ thread_local! {
   static EVS: RefCell<Vec<Ev>> = const { RefCell::new(Vec::new()) };
 }
 
-fn record(actor: u8, handle: u16, inv: u64, k: EvK) {
+pub(crate) fn record(actor: u8, handle: u16, inv: u64, k: EvK) {
   let ret = next_seq();
   EVS.with(|e| e.borrow_mut().push(Ev { actor, handle, k, inv, ret }));
 }
 
-fn take_events() -> Vec<Ev> {
+pub(crate) fn take_events() -> Vec<Ev> {
   EVS.with(|e| std::mem::take(&mut *e.borrow_mut()))
 }
 
 // ------------------------------------------------------------------------------------------
 // Execution
 
-struct Shared {
-  next_handle: AtomicU32,
-  sent_ok: AtomicU32,
-  received: AtomicU32,
+pub(crate) struct Shared {
+  pub(crate) next_handle: AtomicU32,
+  pub(crate) sent_ok: AtomicU32,
+  pub(crate) received: AtomicU32,
 }
 
 impl Shared {
-  fn handle_id(&self) -> u16 {
+  pub(crate) fn new() -> Shared {
+    Shared { next_handle: AtomicU32::new(0), sent_ok: AtomicU32::new(0), received: AtomicU32::new(0) }
+  }
+  pub(crate) fn handle_id(&self) -> u16 {
     self.next_handle.fetch_add(1, Ordering::SeqCst) as u16
   }
 }
@@ -223,7 +226,7 @@ pub fn token_producer(id: u32) -> u32 {
   id / 256
 }
 
-fn run_producer(idx: usize, p: &Producer, mut tx: Box<dyn Tx>, mut hid: u16, sh: &Shared) {
+pub(crate) fn run_producer(idx: usize, p: &Producer, mut tx: Box<dyn Tx>, mut hid: u16, sh: &Shared) {
   let actor = idx as u8;
   let mut seq = 0usize;
   let mut stop = false;
@@ -311,7 +314,7 @@ fn ctx_no_park<R>(f: impl FnOnce() -> R) -> R {
   fibre_verif_rt::chan::thread::no_park_section(f)
 }
 
-fn do_recv(rx: &mut Box<dyn Rx>, form: RecvForm, max: usize, timeout_ns: u64, plan: Plan) -> (RecvForm, RecvOut) {
+pub(crate) fn do_recv(rx: &mut Box<dyn Rx>, form: RecvForm, max: usize, timeout_ns: u64, plan: Plan) -> (RecvForm, RecvOut) {
   let is_async = rx.is_async();
   // forms that only exist on one side fall back to the plain blocking receive
   let form = match form {
@@ -334,7 +337,7 @@ fn do_recv(rx: &mut Box<dyn Rx>, form: RecvForm, max: usize, timeout_ns: u64, pl
   (form, out)
 }
 
-fn run_consumer(idx: usize, nprod: usize, c: &Consumer, mut rx: Box<dyn Rx>, mut hid: u16, sh: &Shared, total_tokens: usize) {
+pub(crate) fn run_consumer(idx: usize, nprod: usize, c: &Consumer, mut rx: Box<dyn Rx>, mut hid: u16, sh: &Shared, total_tokens: usize) {
   let actor = (nprod + idx) as u8;
   let mut got_total = 0usize;
   let budget = c.ops.len().max(1) * (total_tokens + 6);
